@@ -85,8 +85,23 @@ fn headers_match(index: &Index, node: &Node) -> Result<(), String> {
   Ok(())
 }
 
-fn savepoint_heights(trace: &[(&'static str, u64, u64)]) -> Vec<u64> {
-  trace.iter().filter(|(n, _, _)| *n == "savepoint.created").map(|(_, a, _)| *a).collect()
+/// Follow the savepoint events of a trace: `retained` holds the heights
+/// (= number of indexed blocks) of the persistent savepoints still held,
+/// oldest first. Deletion removes the oldest; restoring the oldest (rollback)
+/// invalidates all later ones.
+fn absorb(trace: &[(&'static str, u64, u64)], retained: &mut Vec<u64>) {
+  for (name, a, _) in trace {
+    match *name {
+      "savepoint.deleted" => {
+        if !retained.is_empty() {
+          retained.remove(0);
+        }
+      }
+      "savepoint.created" => retained.push(*a),
+      "rollback.after_commit" => retained.truncate(1),
+      _ => {}
+    }
+  }
 }
 
 pub fn run(ctx: &Ctx, rep: &mut Report) {
@@ -142,6 +157,7 @@ pub fn run(ctx: &Ctx, rep: &mut Report) {
     }
     let n_reorgs = *rng.pick(&[1usize, 1, 2, 3]);
     let mut alive = true;
+    let mut retained: Vec<u64> = Vec::new();
     for r in 0..n_reorgs {
       if !alive {
         break;
@@ -158,7 +174,8 @@ pub fn run(ctx: &Ctx, rep: &mut Report) {
       };
       let extra = rng.range(1, 3) as u32;
       let mid_update = rng.chance(1, 4);
-      let savepoints_before = savepoint_heights(&hooks.trace());
+      absorb(&hooks.trace(), &mut retained);
+      let savepoints_before = retained.clone();
       let pre_dump = masked_dump(&index).ok();
       let replay = json!({"replay": base_replay, "params": params, "reorg": {"number": r, "tip_height": height, "depth": depth, "replacement_blocks": depth + extra, "during_update": mid_update, "savepoints_created_at": savepoints_before}});
       rep.eval();
@@ -216,7 +233,14 @@ pub fn run(ctx: &Ctx, rep: &mut Report) {
       } else {
         switch_branch(&mut w, &mut rng, depth, depth + extra);
       }
-      let result = catch(|| index.update());
+      let mut result = catch(|| index.update());
+      if mid_update && matches!(result, Ok(Ok(()))) {
+        // the switch happened while that update was running (it may have
+        // finished on prefetched blocks of the old branch); the statement is
+        // about the *next* update
+        hooks.configure(|st| st.counts.clear());
+        result = catch(|| index.update());
+      }
       let trace = hooks.trace();
       let action_fired = hooks.0.lock().map(|st| st.action_at.is_none()).unwrap_or(true);
       hooks.configure(|st| {
@@ -293,7 +317,18 @@ pub fn run(ctx: &Ctx, rep: &mut Report) {
               rep.violation("C14/unrecoverable-not-flagged", format!("update() reported an unrecoverable reorg but status().unrecoverably_reorged is false. {summary}"), replay.clone());
             }
             if classified_recoverable > 0 {
-              rep.violation("C14/classified-recoverable-but-reported-unrecoverable", format!("ord classified the fork as recoverable, rolled back and then gave up. {summary}"), replay.clone());
+              // which savepoints were held when the fork was first classified?
+              let mut at_detection = savepoints_before.clone();
+              let upto = trace.iter().position(|(n, _, _)| *n == "reorg.recoverable").unwrap_or(trace.len());
+              absorb(&trace[..upto], &mut at_detection);
+              let fork = u64::from(height - depth); // last common height
+              let usable = at_detection.first().is_some_and(|h| *h <= fork + 1);
+              let sig = if usable { "C14/classified-recoverable-but-reported-unrecoverable" } else { "C14/classified-recoverable-but-oldest-savepoint-above-fork" };
+              rep.violation(
+                sig,
+                format!("ord classified the fork (last common height {fork}) as recoverable, rolled back and then reported it unrecoverable; savepoints held at detection: {at_detection:?}. {summary}"),
+                replay.clone(),
+              );
             } else if let (Some(pre), Ok(post)) = (&pre_dump, masked_dump(&index)) {
               // nothing may be half-applied... unless blocks of the *old* branch
               // that were pending got indexed before the switch was noticed
